@@ -532,6 +532,9 @@ class BosonicBackend(BaseBosonic):
         means = means[filt]
         cov = cov[filt]
 
+        # the dropped components carried weight: normalize what is kept
+        weights /= np.sum(weights)
+
         # applying a rotation if necessary
         if not np.isclose(theta, 0):
             S = np.array([[np.cos(theta), -np.sin(theta)], [np.sin(theta), np.cos(theta)]])
